@@ -1,16 +1,77 @@
-(* C15/Properties.v — the property theorems only. *)
+(* C15/Properties.v — the property theorems only.  Each is closed by [exact] of a lemma from Proofs.v.
+
+   Reading guide.  [r] is the pool configuration as written (pkg/config/cgnat.Pool), [effective r] what the getters
+   make of it, [configure v r] is ConfigurePool, [run v c p0 ops] the pool after any history of AllocateBlock /
+   GetOrAllocate / ReleaseBlocks / RestoreMapping / RestoreMappingIfAbsent calls.  An allocation op may carry the
+   block somebody else chose ([Some b]): it is granted only if admissible, so the theorems cover every allocation
+   policy, the current first-free one included ([None]).  [blocks_of p k] are the blocks subscriber k holds.
+   Variant [repaired] = the code with fixes/C15_*.patch applied; [defective] = the code as it is today.
+   [wf_range r]: port-range start <= end <= 65535 (not checked by cgnat.Config.Validate; listed as an assumption). *)
 From OV Require Import Common.Base C15.Model C15.Proofs.
 Local Open Scope N_scope.
+
+(* two different subscribers never hold overlapping port ranges on one public address *)
+Theorem C15_disjoint :
+  forall r p0 ops, wf_range r -> configure repaired r = Some p0 ->
+  forall k1 k2 b1 b2, k1 <> k2 ->
+    In b1 (blocks_of (run repaired (effective r) p0 ops) k1) ->
+    In b2 (blocks_of (run repaired (effective r) p0 ops) k2) ->
+    b_ip b1 = b_ip b2 -> b_end b1 < b_start b2 \/ b_end b2 < b_start b1.
+Proof. exact disjoint_all. Qed.
+Print Assumptions C15_disjoint.
+
+(* every held block is on a configured, non-excluded public address, starts on a block boundary inside the port
+   range, is exactly one block long and ends inside the range *)
+Theorem C15_in_range_aligned_not_excluded :
+  forall r p0 ops, wf_range r -> configure repaired r = Some p0 ->
+  forall k b, In b (blocks_of (run repaired (effective r) p0 ops) k) ->
+    In (b_ip b) (flat_map expand (r_outside r)) /\ ~ In (b_ip b) (r_excluded r) /\
+    c_pstart (effective r) <= b_start b /\ (b_start b - c_pstart (effective r)) mod c_bs (effective r) = 0 /\
+    b_end b = b_start b + c_bs (effective r) - 1 /\ b_end b <= c_pend (effective r).
+Proof. exact in_range_all. Qed.
+Print Assumptions C15_in_range_aligned_not_excluded.
+
+(* a subscriber never holds more blocks than max-blocks-per-subscriber *)
+Theorem C15_limit :
+  forall r p0 ops, wf_range r -> configure repaired r = Some p0 ->
+  forall k, N.of_nat (length (blocks_of (run repaired (effective r) p0 ops) k)) <= c_max (effective r).
+Proof. exact limit_all. Qed.
+Print Assumptions C15_limit.
+
+(* with paired pooling all blocks of a subscriber are on one public address *)
+Theorem C15_paired_single_ip :
+  forall r p0 ops, wf_range r -> configure repaired r = Some p0 ->
+  forall k b1 b2, c_paired (effective r) = true ->
+    In b1 (blocks_of (run repaired (effective r) p0 ops) k) ->
+    In b2 (blocks_of (run repaired (effective r) p0 ops) k) -> b_ip b1 = b_ip b2.
+Proof. exact paired_all. Qed.
+Print Assumptions C15_paired_single_ip.
 
 (* ---- what the unchanged code violates (variant [defective] = the code as it is today) ---- *)
 
 (* RestoreMapping accepts an unaligned block overlapping subscriber 1's block; releasing the restored subscriber
    clears subscriber 1's bit; the allocator then hands subscriber 1's block to subscriber 4. *)
 Theorem C15_disjoint_refuted :
-  exists ops, let p := run defective ex_cfg (pool_of defective ex_raw) ops in
-    mon_disjoint p = false /\ mon_range ex_cfg p = true.
+  exists ops b, let p := run defective ex_cfg (pool_of defective ex_raw) ops in
+    In b (blocks_of p 1) /\ In b (blocks_of p 4).
 Proof.
   exists [OAlloc 1 None; ORestore 3 {| b_ip := ex_base; b_start := 1030; b_end := 1045 |}; ORelease 3; OAlloc 4 None].
-  vm_compute. split; reflexivity.
+  exists {| b_ip := ex_base; b_start := 1024; b_end := 1039 |}.
+  vm_compute. split; left; reflexivity.
 Qed.
 Print Assumptions C15_disjoint_refuted.
+
+(* non-vacuity of the hypotheses: the same geometry, a history with allocations by two subscribers, a release, a
+   valid restore and a refused (unaligned) restore, run on the repaired model *)
+Example C15_nonvacuous :
+  wf_range ex_raw /\ configure repaired ex_raw <> None /\
+  let p := run repaired ex_cfg (pool_of repaired ex_raw)
+             [OAlloc 1 None; OAlloc 1 None; OAlloc 2 None; ORelease 2;
+              ORestore 3 {| b_ip := ex_base; b_start := 1030; b_end := 1045 |};
+              ORestoreIfAbsent 3 {| b_ip := ex_base + 1; b_start := 1056; b_end := 1071 |}; OGoa 2 None] in
+  blocks_of p 1 = [ {| b_ip := ex_base; b_start := 1024; b_end := 1039 |};
+                    {| b_ip := ex_base; b_start := 1040; b_end := 1055 |} ] /\
+  blocks_of p 2 = [ {| b_ip := ex_base; b_start := 1056; b_end := 1071 |} ] /\
+  blocks_of p 3 = [ {| b_ip := ex_base + 1; b_start := 1056; b_end := 1071 |} ].
+Proof. vm_compute. repeat split; try discriminate; intros H; discriminate. Qed.
+Print Assumptions C15_nonvacuous.
